@@ -44,16 +44,20 @@ func TestRejectsUnsupportedConstructs(t *testing.T) {
 		{"global variable", "var G = 3\nfunc F() int { return G }", "not a sentinel"},
 		{"signed shift count", "func F(x uint64, n int) uint64 { return x << n }", "shift count"},
 		{"iota", "const (\n A = iota\n B\n)\nfunc F() int { return B }", "iota"},
-		{"missing return path", "func F(x int) int { for i := 0; i < 3; i++ { return 1 }\n panic(\"x\") }", "unsupported statement"},
+		{"missing return path", "func F(x int) int { for i := 0; i < 3; i++ { return 1 }\n panic(\"x\") }", "not a target"},
 		{"named results", "func F(x int) (r int) { return x }", "named results"},
 		{"struct field", "type S struct{ a int }\nfunc F(s S) int { return s.a }", "unsupported type expression"},
+		{"copy into slice", "func F(b, c []byte) int { copy(b[0:], c); return 0 }", "local ARRAY"},
+		{"pointer escapes", "type A [4]byte\nfunc F(p *A) int { q := p; _ = q; return 0 }", "pointer parameter"},
+		{"pointer to non-array", "func F(p *int) int { return 0 }", "non-array"},
+		{"mutating call in expression", "type A [4]byte\nfunc G(p *A) { p[0] = 1 }\nfunc F() int { var a A; G(&a); return int(a[0]) + H(&a) }\nfunc H(p *A) int { p[1] = 2; return 0 }", "only supported as a statement"},
 	}
 	for _, c := range cases {
-		name := "F"
-		if c.name == "pointer receiver" {
-			name = "F"
+		names := []string{"F"}
+		if c.name == "mutating call in expression" {
+			names = []string{"G", "H", "F"}
 		}
-		repo, tj := writeRepo(t, c.src, name)
+		repo, tj := writeRepo(t, c.src, names...)
 		_, _, err := run(repo, tj)
 		if err == nil {
 			t.Errorf("%s: translation succeeded, want an error mentioning %q", c.name, c.want)
@@ -77,10 +81,15 @@ func Idx(a [4]uint64, i int) uint64 { return a[i] }
 func And(b []byte, i int) bool { return i < len(b) && b[i] == 1 }
 func Max() int { return int(M) + 1 }
 func Sum(xs []uint32) uint32 { s := uint32(0); for _, x := range xs { s += x }; return s }
+type A [16]byte
+func Put(p *A, i int, v uint64) { binary.BigEndian.PutUint64(p[i:], v) }
+func Get(p *A) uint64 { return binary.BigEndian.Uint64(p[8:]) }
+func Use(a A, v uint64) (uint64, A) { var r A; copy(r[:], a[8:]); Put(&r, 8, v); g := Get(&r); return g, r }
 `
-	repo, tj := writeRepo(t, src, "USub", "SDiv", "SRem", "Conv", "Idx", "And", "Max", "Sum")
+	src = "import \"encoding/binary\"\n" + src
+	repo, tj := writeRepo(t, src, "USub", "SDiv", "SRem", "Conv", "Idx", "And", "Max", "Sum", "Put", "Get", "Use")
 	out, n, err := run(repo, tj)
-	if err != nil || n != 8 {
+	if err != nil || n != 11 {
 		t.Fatalf("run: %v (n=%d)", err, n)
 	}
 	for _, want := range []string{
@@ -92,6 +101,12 @@ func Sum(xs []uint32) uint32 { s := uint32(0); for _, x := range xs { s += x }; 
 		"if (implb (i <? (go_len b)) (go_in_range b i)) then",
 		"Definition p_Max : Z :=\n  65536.",
 		"let s := (wrap_u32 (s + x)) in\n      (Next s)",
+		"Definition p_Put (p : (list Z)) (i : Z) (v : Z) : (option (list Z)) :=",
+		"let p := (be_put_uint 8 p i v) in\n    (Some p)",
+		"Definition p_Get (p : (list Z)) : (option Z) :=",
+		"let r := (go_copy_at r 0 (go_slice a 8 (go_len a))) in",
+		"match (p_Put r 8 v) with\n    | None => None\n    | Some r =>",
+		"match (p_Get r) with",
 	} {
 		if !strings.Contains(out, want) {
 			t.Errorf("output lacks %q\n%s", want, out)
